@@ -529,7 +529,8 @@ Definition mp4_atom_entries (f : list Z) (a : mp4_atom) : list mp4_entry :=
 Definition mp4_all_entries (f : list Z) (atoms : list mp4_atom) : list mp4_entry :=
   flat_map (mp4_atom_entries f) (mp4_flat atoms).
 Definition mp4_entries_in_file (f : list Z) (atoms : list mp4_atom) : bool :=
-  forallb (fun e => snd e <=? zlen f) (mp4_all_entries f atoms).
+  let n := zlen f in            (* computed once: the tables may hold many thousand entries *)
+  forallb (fun e => snd e <=? n) (mp4_all_entries f atoms).
 
 (* F_parse / F_wf *)
 Definition mp4_parse (f : list Z) : result (list mp4_atom) :=
